@@ -101,6 +101,11 @@ def fvz(x):
     if x == -math.inf:
         return [7, 1]
     f = F(x)
+    # a mean of k reports is sum/k rounded to the nearest double; the model computes the exact quotient. Compare the simplest
+    # rational that rounds to this very double (for dyadic values that is the value itself).
+    g = f.limit_denominator(10 ** 6)
+    if float(g) == x:
+        f = g
     return [7, 3, f.numerator, f.denominator]
 
 
